@@ -11,7 +11,7 @@ git -C /repo worktree add --detach "$WT" HEAD >/dev/null 2>&1 || { echo "cannot 
 trap 'git -C /repo worktree remove --force "$WT" >/dev/null 2>&1; rm -rf "$XV"' EXIT
 (cd "$WT" && (git apply "$P" 2>/dev/null || git apply -3 "$P")) || { echo "MUT $tag patch does not apply"; exit 2; }
 mkdir -p "$XV/evidence" "$XV/replays" "$XV/bin"
-cp -r /verif/xmc "$XV/xmc"; cp /verif/known_findings.json "$XV/"
+SRC="${VERIF_SRC:-/verif}"; cp -r "$SRC/xmc" "$XV/xmc"; cp "$SRC/known_findings.json" "$XV/"
 sed -i "s#=> /repo#=> $WT#" "$XV/xmc/go.mod"
 (cd "$XV/xmc" && go build -o ../bin/xmc . ) || { echo "MUT $tag harness does not build against the change"; exit 2; }
 for ID in "$@"; do
